@@ -51,6 +51,11 @@ Estimated(e, step, max) == IF step = 0 THEN 0 ELSE RoundHalfEven(e * max, TPS * 
 \* remaining: round(elapsed / step * (max - max)) = 0 whatever the progress: the code multiplies by max - max
 Remaining(e, step, max) == FormatTime(0)
 Percent(step, max) == IF max = 0 THEN 0 ELSE (100 * step) \div max
+\* a placeholder the bar knows nothing about stays in the frame verbatim, width suffix included
+Unknown1 == <<"%", "n", "o", "s", "u", "c", "h", "%">>
+Unknown2 == <<"%", "n", "o", "s", "u", "c", "h", ":", "4", "s", "%">>
+\* get_progress_percent() is the fraction step / max (0 without a maximum): num/den given in lowest terms
+GetterOK(num, den, step, max) == IF max = 0 THEN num = 0 ELSE num * max = den * step
 Placeholders(e, step, max, se, sr, ss, sp) ==
   IF max = 0 THEN [exc |-> "RuntimeError", elapsed |-> <<>>, remaining |-> <<>>, estimated |-> <<>>, percent |-> <<>>]
   ELSE [exc |-> "", elapsed |-> Field(Elapsed(e), se), remaining |-> Field(Remaining(e, step, max), sr),
